@@ -278,6 +278,7 @@ func childVerify(a []string) {
 	v.Q1, v.QErr = queryAll(s)
 	if rounds < 2 {
 		v.Rounds = 1
+		settle(dir) // do not exit in the middle of the background flush: that instant belongs to part (ii)
 		emit()
 	}
 	v.Rounds = 2
